@@ -148,6 +148,28 @@ func perturb(tree any, l int, nLevels int) []pert {
 		mod("matrixWidth-1", func(tm map[string]any) { setNum(tm, "matrixWidth", numOf(tm, "matrixWidth")-1) })
 		mod("matrixHeight-1", func(tm map[string]any) { setNum(tm, "matrixHeight", numOf(tm, "matrixHeight")-1) })
 	}
+	// both sides off by one (the matrix stays square); alone, and with every deeper level doubling on from the broken one
+	for _, delta := range []float64{1, -1} {
+		delta := delta
+		if l == 0 && delta < 0 {
+			continue
+		}
+		mod(fmt.Sprintf("matrix-both%+g", delta), func(tm map[string]any) {
+			setNum(tm, "matrixWidth", numOf(tm, "matrixWidth")+delta)
+			setNum(tm, "matrixHeight", numOf(tm, "matrixHeight")+delta)
+		})
+		if l > 0 && l < nLevels-1 { // from level 0 on, the result would be a (consistent) quadtree with a larger root
+			d := clone(tree)
+			lst := d.(map[string]any)["tileMatrices"].([]any)
+			w := numOf(lst[l].(map[string]any), "matrixWidth") + delta
+			for j := l; j < len(lst); j++ {
+				setNum(lst[j].(map[string]any), "matrixWidth", w)
+				setNum(lst[j].(map[string]any), "matrixHeight", w)
+				w *= 2
+			}
+			out = append(out, pert{fmt.Sprintf("level%d:matrix-both%+g-deeper-levels-doubling-on", l, delta), d})
+		}
+	}
 	mod("matrix-both-x2", func(tm map[string]any) {
 		setNum(tm, "matrixWidth", numOf(tm, "matrixWidth")*2)
 		setNum(tm, "matrixHeight", numOf(tm, "matrixHeight")*2)
@@ -429,7 +451,7 @@ func runC14() {
 	r.Finish(map[string]any{
 		"states": states, "transitions": trans, "traces_validated_against_impl": 0, "samples": samples.L,
 		"evaluations": trans, "distinct_nontrivial": nontrivial, "outcomes": outcomes,
-		"rule":       "state = (built-in set, deepest id) for all 14 sets and all their ids, plus every single-level perturbation (matrix width/height +-1 and x2, tile width/height, tile size, origin +-1 and +2ulp per axis, corner flipped, cell size x1.006/0.994 (just beyond the tolerance)/1.02/0.98/1.5/4, variable widths, level removed, ids shifted, id string != key) of every accepted set at every level; each state is run through the real validateTileMatrixSet (in-package), the real binary (built-ins) and IsQuadTree; accepted built-ins additionally through the pixel-size observation; non-trivial = perturbed sets and accepted built-in (set, id) pairs",
+		"rule":       "state = (built-in set, deepest id) for all 14 sets and all their ids, plus every single-level perturbation (matrix width/height +-1 (one side; both sides; both sides with the deeper levels doubling on) and x2, tile width/height, tile size, origin +-1 and +2ulp per axis, corner flipped, cell size x1.006/0.994 (just beyond the tolerance)/1.02/0.98/1.5/4, variable widths, level removed, ids shifted, id string != key) of every accepted set at every level; each state is run through the real validateTileMatrixSet (in-package), the real binary (built-ins) and IsQuadTree; accepted built-ins additionally through the pixel-size observation; non-trivial = perturbed sets and accepted built-in (set, id) pairs",
 		"exhaustive": true,
 	})
 }
